@@ -555,7 +555,9 @@ def flush_model(ctx, rule):
                             ns.attrs["_state_watchers"].append(wc)
                         return None
                     return NotImplemented
-                wc = Obj("wc", precedence=0, parameter_names=["c"], what="value", queued=False, onlychanged=True)
+                # the watcher of the second round watches `a` as well: in that round only `c` had an event (what the first round
+                # delivered for `a` is not delivered again)
+                wc = Obj("wc", precedence=0, parameter_names=["c", "a"], what="value", queued=False, onlychanged=True)
                 c_new = Obj("value_installed_by_c1")
                 it = Interp(ctx.hier, dyn=P + "Parameters", inline=lambda m: True, call_hook=hook, strict_self_calls=True)
                 try:
